@@ -197,7 +197,7 @@ Proof.
   intros Hcb Hr Hst. unfold force_disconnect.
   pose proof (reset_encryption_frame c s) as F. destruct (reset_encryption c s) as [s1 i1].
   cbn [fst] in F. destruct F as (F1 & F2 & F3).
-  cbn [start_advertising_impl handle_start_advertising fst st set_deferred set_st ring].
+  cbn [start_advertising_impl handle_start_advertising fst st set_deferred set_st set_adv_ch ring].
   split; [reflexivity|].
   destruct (st s1) eqn:E; try (rewrite <- F2 in Hst; congruence);
     rewrite push_event_ring_nil; try assumption; try congruence; rewrite ?F3; try reflexivity; congruence.
